@@ -674,6 +674,8 @@ def check_indep(case, ctx):
 def reest_case(draw, tier):
     cfg = draw(flow_cfg(tier, n_rep=(1, 3)))
     cfg["n_rep"] = pick(draw, [2, 3, 1, 2])
+    # every eighth case also stores a run of MANY (11 or 12) tiny test settings: two-digit directory numbers
+    many = draw(st.integers(0, 7)) == 0
     # two cases of ONE estimator that differ in the parametrisation only, named alike (case names are free text and
     # `type(estimator).__name__` is a common choice): every case must be re-estimated with ITS parametrisation
     if draw(st.integers(0, 2)) == 0:
@@ -682,7 +684,7 @@ def reest_case(draw, tier):
         second["para"] = not first["para"]
         cfg["est_cases"] = [first, second]
         cfg["tied_names"] = True
-    return {"cfg": cfg, "pick_rep": draw(st.integers(0, 2))}
+    return {"cfg": cfg, "pick_rep": draw(st.integers(0, 2)), "many_settings": (11 + draw(st.integers(0, 1))) if many else 0}
 
 
 def _est_lists(results):
@@ -702,12 +704,38 @@ def _cmp_est(ctx, ec, got, stored, oid):
                 ctx.equal(a, b, oid + ":" + ec["est"])
 
 
+def _check_many_settings(case, ctx, flow):
+    """a stored run of 11+ test settings (tiny: one sample, one repetition, linear estimator) re-estimated from disk: every
+    stored result comes back, matched by its result index (the order of the returned list is not documented)."""
+    cfg = dict(case["cfg"])
+    cfg.update(n_sample=1, n_rep=1, num_data=[int(case["cfg"]["num_data"][0])], est_cases=[{"est": "linear", "para": True}],
+               exec_check="none")
+    cfg.pop("tied_names", None)
+    n = int(case["many_settings"])
+    with F.scratch_dir() as root, F.scratch_dir() as root2:
+        res, _ = F.run_flow(cfg, None, root_dir=root, n_settings=n)
+        if not ctx.check(len(res) == n, "many_settings:forward_layout", f"{len(res)} results for {n} test settings"):
+            return
+        re_all = flow.re_estimate_test_settings(input_root_dir=root, output_root_dir=root2, pdf_mode="none",
+                                                exec_sim_check=F.exec_check_of(cfg))
+        key = lambda r: tuple(sorted((k, str(v)) for k, v in r.result_index.items()))  # noqa: E731
+        stored = {key(r): _est_lists(r.estimation_results) for r in res}
+        got = {key(r): _est_lists(r.estimation_results) for r in re_all}
+        ctx.check(len(re_all) == n and set(got) == set(stored), "many_settings:every_stored_result_is_re_estimated",
+                  lambda: f"stored {n} results, re-estimated {len(re_all)}; missing {sorted(set(stored) - set(got))[:3]}")
+        for k_ in sorted(set(got) & set(stored)):
+            _cmp_est(ctx, {"est": "linear"}, got[k_], stored[k_], "many_settings:re_estimate_flow")
+    ctx.label(f"many-settings:{n}")
+
+
 def check_reest(case, ctx):
     from quara.simulation import standard_qtomography_simulation as sim
     from quara.simulation import standard_qtomography_simulation_flow as flow
 
     cfg = case["cfg"]
     label_cfg(ctx, cfg)
+    if case.get("many_settings"):
+        _check_many_settings(case, ctx, flow)
     if cfg.get("tied_names"):
         ctx.label("case-names:tied")
     n_cases = len(cfg["est_cases"])
